@@ -1,16 +1,34 @@
 SPECIFICATION RSpec
 CONSTANTS
   NVB = 2
-  Hist <- HistA
-  FoUuid <- FoA
+  InitLog <- HistA
+  MaxSeq = 3
+  Keys = {"user"}
+  Kinds = {"mut", "sys", "adv"}
+  OldEvents = FALSE
+  BadEvents = FALSE
+  FoUuid <- Fo10
   Savers = {"p", "c"}
   MaxSaves = 10
   MaxCrash = 3
   MaxAcks = 10
+  MaxGen = 4
+  MaxNotify = 0
+  MaxEnds = 0
+  MaxFail = 0
   AutoReset = "earliest"
+  Finite = FALSE
+  AutoCkpt = FALSE
+  Infos <- NoInfos
+  Info0 <- Info11
+  EndCauses = {}
+  Hold = FALSE
+  AllowClose = FALSE
+  Rollbacks = FALSE
   FailSaves = TRUE
   Focus = TRUE
   Record = TRUE
+  Gaps = {}
   Bugs = {}
 INVARIANTS DumpSched
 CHECK_DEADLOCK FALSE
